@@ -89,6 +89,9 @@ func (s *service) TakeTestRecording() *dbus.Error {
 }
 
 func (s *service) CameraInfo() (map[string]interface{}, *dbus.Error) {
+	// the frame loop replaces (or, when a reconnect fails, clears) the global while this request
+	// is being served: use one consistent copy
+	headerInfo := headerInfo
 
 	if headerInfo == nil {
 		return nil, &dbus.Error{
